@@ -400,7 +400,8 @@ def g_validate_data(repo):
         primary_in is None ==> res == Ok::<Option<PathAwareValue>, Error>(Some(path_value)),
         // every later file is MERGED into what was collected so far (PathAwareValue::merge: U-merge), never replaces it;
         // a failing merge (duplicate key) fails the run
-        primary_in is Some ==> (res is Ok ==> res->Ok_0 == Some(merged(primary_in->Some_0, path_value))),
+        // (either operand order: the key -> value mapping of a disjoint union does not depend on it, lemma L-merge)
+        primary_in is Some ==> (res is Ok ==> res->Ok_0 == Some(merged(primary_in->Some_0, path_value)) || res->Ok_0 == Some(merged(path_value, primary_in->Some_0))),
 ''',
                'the statement that folds the document of one --input-parameters file into the payload collected so far',
                props=['C17'], pre='let mut primary_path_value = primary_in;   // the accumulator of Validate::execute (`let mut primary_path_value: Option<PathAwareValue> = None;`)')
